@@ -73,9 +73,10 @@ AttrOk(r, t, ra, oa, chkLoc, chkVal) ==
       vb == Slice(r, t.s + ra[3], t.s + ra[4])
   IN /\ chkVal => SameLower(r, oa.n, nb) /\ SameStr(r, oa.nr, nb) /\ SameStr(r, oa.v, vb)
      /\ chkLoc => /\ oa.nl = <<t.s + ra[1], t.s + ra[2]>>
-                  \* a value range is reported exactly when the attribute has a value in the source
-                  /\ IF ra[3] = 0 /\ ra[4] = 0 THEN oa.vl = <<>> \/ (Len(oa.vl) = 2 /\ oa.vl[1] = oa.vl[2])
-                     ELSE oa.vl = <<t.s + ra[3], t.s + ra[4]>> \/ (ra[3] = ra[4] /\ (oa.vl = <<>> \/ (Len(oa.vl) = 2 /\ oa.vl[1] = oa.vl[2])))
+                  \* a non-empty value is reported exactly; a missing or empty value as an empty range
+                  \* located after the name, inside the tag
+                  /\ IF ra[4] > ra[3] THEN oa.vl = <<t.s + ra[3], t.s + ra[4]>>
+                     ELSE Len(oa.vl) = 2 /\ oa.vl[1] = oa.vl[2] /\ oa.vl[1] >= t.s + ra[2] /\ oa.vl[1] <= t.e
 
 StartTagOk(r, t, chkLoc, chkVal) ==
   LET rt == OneTok(r, t) IN
